@@ -187,6 +187,142 @@ def work_random(item):
     return res
 
 
+def user_function(fam, c):
+    """User functions with a visible constant factor: two adapted operations are told apart by it."""
+    if fam == "reduce":
+        return lambda x, axis: np.sum(x, axis=axis) * c
+    return lambda *xs: sum(xs[1:], xs[0]) * c
+
+
+def adapt(fam, c):
+    import einx
+
+    f = user_function(fam, c)
+    return einx.numpy.adapt_numpylike_reduce(f) if fam == "reduce" else einx.numpy.adapt_numpylike_elementwise(f)
+
+
+def work_sequence(item):
+    """Compile A, compile B (each holds a different user function as its constant), and only then evaluate:
+    A's cached function / text / graph, the public call of A again, then the same for B. A compilation must not
+    depend on what was compiled after (or before) it."""
+    cases, consts, timeout_ms = item
+    res = {"kind": "sequence", "descs": [c["desc"] for c in cases], "consts": consts, "solver_s": 0.0}
+    ops, arrs_all, recs = [], [], []
+    for case, c in zip(cases, consts):
+        op = adapt(case["family"], c)
+        arrs = harness.build_inputs(case)
+        kw = dict(case["kwargs"])
+        with graphs.Capture() as cap:
+            try:
+                text = op(case["desc"], *copies(arrs), graph=True, **kw)
+            except Exception as e:  # noqa: BLE001
+                res["status"] = harness.classify_exception(e)
+                return res
+        if not cap.records:
+            res["status"] = "cache-hit"
+            return res
+        rec = cap.records[-1]
+        if text != rec["code"]:
+            res["status"], res["problems"] = "violation?", ["graph=True text differs from the compiled text"]
+            return res
+        ops.append(op)
+        arrs_all.append(arrs)
+        recs.append(rec)
+    problems = []
+    for i in list(range(len(cases))) + [0]:
+        case, c, rec, arrs = cases[i], consts[i], recs[i], arrs_all[i]
+        assumptions = harness.coord_assumptions(case, arrs)
+        st, pr, dt, _ = compare_triple(rec, copies(arrs), assumptions, timeout_ms)
+        res["solver_s"] += dt
+        if st in ("unknown", "unmodelled"):
+            res["status"] = st
+            return res
+        problems += [f"[compilation {i}: {case['desc']!r} const factor {c}] {x}" for x in pr]
+        # the public call (cache hit) against the loop-notation meaning of the user function
+        try:
+            out = ops[i](case["desc"], *copies(arrs), **case["kwargs"])
+            ref = [np.asarray(r, dtype=object) * c for r in harness.reference(dict(case, op="sum" if case["family"] == "reduce" else "add"), arrs)]
+            v, _, dt = prove.prove_equal(list(zip(tolist(out), ref)), assumptions, timeout_ms)
+            res["solver_s"] += dt
+            if v == "sat":
+                problems.append(f"[compilation {i}: {case['desc']!r} const factor {c}] public call after the other compilations does not compute the adapted function's meaning")
+            elif v == "unknown":
+                res["status"] = "unknown"
+                return res
+        except (prove.ShapeMismatch, S.UnmodelledPrimitive) as e:
+            problems.append(f"[compilation {i}] {type(e).__name__}")
+        except Exception as e:  # noqa: BLE001
+            problems.append(f"[compilation {i}: {case['desc']!r}] public call raised {type(e).__name__}: {str(e)[:200]}")
+    res["status"] = "violation?" if problems else "holds"
+    res["problems"] = problems
+    return res
+
+
+SEQUENCE_REPLAY = r'''#!/venv/bin/python
+"""Replay (C04): two adapted user functions (constants of two different compilations); the first operation is
+called again after the second was compiled, on plain numpy."""
+import json, sys
+sys.path.insert(0, "/repo")
+import numpy as np
+import einx, einx.numpy
+SPEC = json.loads(r"""{spec}""")
+def tup(v): return tuple(tup(x) for x in v) if isinstance(v, list) else v
+def user_function(fam, c):
+    if fam == "reduce":
+        return lambda x, axis: np.asarray(np.sum(x, axis=axis) * c)
+    return lambda *xs: np.asarray(sum(xs[1:], xs[0]) * c)
+ops, args, kws = [], [], []
+for m in SPEC["members"]:
+    f = user_function(m["family"], m["c"])
+    ops.append(einx.numpy.adapt_numpylike_reduce(f) if m["family"] == "reduce" else einx.numpy.adapt_numpylike_elementwise(f))
+    args.append([np.array(a["data"], dtype=np.int64).reshape(a["shape"]) for a in m["args"]])
+    kws.append({{k: tup(v) for k, v in m["kwargs"].items()}})
+bad = False
+for i, m in enumerate(SPEC["members"]):
+    print("compile+call #%d: adapted(%s, factor %d)(%r)" % (i, m["family"], m["c"], m["desc"]))
+    ops[i](m["desc"], *args[i], **kws[i])
+for i in list(range(len(ops))) + [0]:
+    m = SPEC["members"][i]
+    try:
+        r = np.asarray(ops[i](m["desc"], *args[i], **kws[i])).tolist()
+    except Exception as e:
+        r = "raised %s" % type(e).__name__
+    print("call #%d again -> %r; loop-notation meaning of the user function: %r" % (i, r, m["expected"]))
+    bad |= r != m["expected"]
+if bad:
+    print("REPRODUCED: an adapted operation no longer computes its own user function after another one was compiled"); sys.exit(1)
+print("NOT-REPRODUCED"); sys.exit(0)
+'''
+
+
+def expected_list(ref, c):
+    r = np.asarray(ref, dtype=object)
+    out = np.empty(r.shape, dtype=np.int64)
+    for pos in np.ndindex(*r.shape):
+        out[pos] = int(replay._val(r[pos])) * c
+    return out.tolist()
+
+
+def write_sequence_replay(cases, consts):
+    import hashlib, json, os
+
+    members = []
+    for case, c in zip(cases, consts):
+        conc = []
+        for e in case["ins"]:
+            sh = shape(expand(e))
+            n = int(np.prod(sh)) if sh else 1
+            conc.append((np.arange(n, dtype=np.int64) * 3 + 1).reshape(sh))
+        ref = harness.reference(dict(case, op="sum" if case["family"] == "reduce" else "add"), [np.asarray(a, dtype=object) for a in conc])
+        members.append({"family": case["family"], "c": c, "desc": case["desc"], "kwargs": runner.jsonable(case["kwargs"]), "args": [{"data": a.tolist(), "shape": list(a.shape)} for a in conc], "expected": expected_list(ref[0], c)})
+    text = json.dumps({"members": members})
+    os.makedirs(os.path.join(runner.REPLAY_DIR, PROP), exist_ok=True)
+    path = os.path.join(runner.REPLAY_DIR, PROP, "sequence_" + hashlib.sha1(text.encode()).hexdigest()[:12] + ".py")
+    with open(path, "w") as f:
+        f.write(SEQUENCE_REPLAY.format(spec=text))
+    return path
+
+
 RANDOM_REPLAY = r'''#!/verif/.venv/bin/python
 """Replay (C04): seeded random graph, compiled by the real compiler, evaluated on plain numpy integers:
 cached function vs stand-alone exec of the returned text vs node-by-node interpretation of the graph."""
@@ -312,9 +448,16 @@ def main():
                 cap_items.append((dict(c, op="sum" if fam == "reduce" else "add"), timeout_ms, "adapter"))
             if len(cap_items) % 4 == 0 and c["kinds"][-1] != "coord":
                 cap_items.append((c, timeout_ms, "factory"))
+    seq_pool = [c for fam in ("reduce", "elementwise") for c in family.generate(fam, 40 * mult, seed + 9, tier) if c["kinds"] == ["int"] * len(c["kinds"]) and not c["opts"] and len(c["outs"]) == 1 and (fam == "reduce" or len(c["ins"]) >= 2)]
+    seq_pool = [dict(c, op="sum" if c["family"] == "reduce" else "add") for c in seq_pool]
+    seq_items = []
+    for i in range(0, len(seq_pool) - 2, 2):
+        k = 2 if i % 4 == 0 else 3
+        seq_items.append((seq_pool[i : i + k], [2, 3, 5][:k], timeout_ms))
     rnd_items = [(seed * 1000003 + i, MAX_NODES[tier], timeout_ms) for i in range(N_RANDOM[tier])]
     res_cap = runner.pmap(work_captured, cap_items, chunksize=4)
     res_rnd = runner.pmap(work_random, rnd_items, chunksize=8)
+    res_seq = runner.pmap(work_sequence, seq_items, chunksize=2)
     status = collections.Counter()
     ntypes = collections.Counter()
     constructs = collections.Counter()
@@ -375,15 +518,38 @@ def main():
             rep.harness_error(f"{r.get('error')} {r.get('trace', '')[-600:]}")
         elif st_ in ("unknown", "unmodelled"):
             rep.inconclusive.append({"why": st_, "seed": sd})
+    for (cases, consts, _), r in zip(seq_items, res_seq):
+        st_ = r["status"]
+        if st_ == "violation?" and not BUDGET.take():
+            st_ = "sat-not-replayed"
+        elif st_ == "violation?":
+            path = write_sequence_replay(cases, consts)
+            ok, out = replay.run_script(path)
+            r["replay"], r["replay_out"] = path, out[-1500:]
+            st_ = "violation" if ok else "not-reproduced"
+        status["sequence:" + st_] += 1
+        solver_s += r.get("solver_s", 0.0)
+        if st_ == "holds":
+            nontrivial.add(("sequence", tuple(r["descs"])))
+            if sum(1 for s_ in samples if s_["kind"] == "sequence") < 2:
+                samples.append({"kind": "sequence", "adapted_calls": r["descs"], "constant_factors": r["consts"]})
+        elif st_ == "violation":
+            rep.violation({"kind": "sequence", "descs": r["descs"]}, r["replay"], f"compilations {r['descs']} evaluated after all were compiled: {r.get('problems')}\n{r.get('replay_out', '')[-700:]}")
+        elif st_ == "not-reproduced":
+            rep.harness_error(f"sequence finding did not reproduce: {r['descs']} {r.get('problems')} {r.get('replay_out', '')[-400:]}")
+        elif st_ == "harness-error":
+            rep.harness_error(f"{r.get('error')} {r.get('trace', '')[-600:]}")
+        elif st_ in ("unknown", "unmodelled"):
+            rep.inconclusive.append({"why": st_, "sequence": r["descs"]})
     # vacuity: a deliberately corrupted text must be caught (swap two operands of the first binary call)
     twin = vacuity_twin()
     if twin != "violation?":
         rep.harness_error(f"vacuity twin (text with an altered statement) came back {twin!r}")
     rep.coverage = {
-        "programs": len(cap_items) + len(rnd_items),
+        "programs": len(cap_items) + len(rnd_items) + len(seq_items),
         "disagreements_checked": sum(v for k, v in status.items() if k.endswith(":violation") or k.endswith("not-reproduced")),
         "samples": samples,
-        "evaluations": len(cap_items) + len(rnd_items),
+        "evaluations": len(cap_items) + len(rnd_items) + len(seq_items),
         "distinct_nontrivial": len(nontrivial),
         "rule": "one harness = one compilation (captured from a real call, or a seeded random graph over all IR node types): cached function vs stand-alone exec of the returned text vs independent graph interpretation on the same symbolic tensors; non-trivial = z3 proved all three equal for all contents, code objects equal, graph=True text identical",
         "status_counts": dict(status),
